@@ -1,8 +1,10 @@
 package checks
 
 import (
+	"bytes"
 	"fmt"
 	"net/netip"
+	"sort"
 	"time"
 
 	"github.com/pion/ice/v4"
@@ -83,6 +85,15 @@ func runC03(c *core.Ctx) {
 	o.tamperRun = c.T.Bias(1, 10, "tamper-run")
 	c.Knob("tamperRun", o.tamperRun)
 	sess := &c01Session{c: c, d: d, k: k, noOracles: true}
+	if !k.liteB && c.T.Bias(1, 4, "b-starts-controlling") {
+		// B starts in the controlling role too and loses the conflict (tie-breakers fixed so that A keeps the
+		// role): from then on it is the controlled agent this check judges - with pairs that were formed, and
+		// ranked, while it still believed to be controlling
+		if ice.VerifSetTieBreaker(d.A.A, ^uint64(0)) == nil && ice.VerifSetTieBreaker(d.B.A, 1) == nil {
+			sess.sameRole = "controlling"
+			c.Fault("controlled-agent-started-controlling")
+		}
+	}
 	sess.hook = func(string) {
 		if c.Failed() {
 			return
@@ -253,6 +264,41 @@ func (o *c03Oracle) tamper() bool {
 	return true
 }
 
+// asymmetricResponse: an authentic success response (right transaction id, right integrity) to one of the
+// target's own requests that arrives from ANOTHER known remote address than the request went to. It answers no
+// check of the pair it arrives on: that pair must not count as validated by it.
+func (o *c03Oracle) asymmetricResponse(target, peer *rig.AgentH) bool {
+	c, d := o.c, o.d
+	side := o.led.Side[target.Name]
+	var txs [][stun.TransactionIDSize]byte
+	for id := range side.Sent {
+		txs = append(txs, id)
+	}
+	if len(txs) == 0 {
+		return false
+	}
+	sort.Slice(txs, func(i, j int) bool { return bytes.Compare(txs[i][:], txs[j][:]) < 0 })
+	id := txs[c.T.Choose(len(txs), "asymtx")]
+	req := side.Sent[id]
+	var others []netip.AddrPort
+	for _, cand := range peer.LocalCands() {
+		if ap := rig.CandAP(cand); ap != req.R && ap.Addr().Is4() == req.R.Addr().Is4() {
+			others = append(others, ap)
+		}
+	}
+	if len(others) == 0 {
+		return false
+	}
+	src := others[c.T.Choose(len(others), "asymsrc")]
+	l := req.L
+	resp := rig.MsgSpec{Method: stun.MethodBinding, Class: stun.ClassSuccessResponse, TxID: &id, XorAddr: &l, Key: peer.Pwd}
+	dg := d.W.Inject(src, req.L, resp.Build(), "asymmetric-response")
+	c.Fault("adversary:asymmetric-response")
+	c.Logf("adversary: response to a request sent to %s arrives from %s at %s", req.R, src, req.L)
+	_, _ = d.S.Deliver(dg)
+	return true
+}
+
 func (o *c03Oracle) adversary() {
 	c, d := o.c, o.d
 	if o.tamperRun && c.T.Bias(1, 2, "tamper") && o.tamper() {
@@ -263,6 +309,9 @@ func (o *c03Oracle) adversary() {
 		target, peer = d.A, d.B
 	}
 	if target.Conn == nil {
+		return
+	}
+	if c.T.Bias(1, 6, "asymmetric-response") && o.asymmetricResponse(target, peer) {
 		return
 	}
 	locals := target.LocalCands()
